@@ -3,6 +3,7 @@ package utreexo
 import (
 	"encoding/hex"
 	"fmt"
+	"math/bits"
 	"sort"
 )
 
@@ -82,24 +83,66 @@ func Verify(stump Stump, delHashes []Hash, proof Proof) ([]int, error) {
 	if err != nil {
 		return nil, err
 	}
-	rootIndexes := make([]int, 0, len(rootCandidates))
-	for i := range stump.Roots {
-		if len(rootCandidates) > len(rootIndexes) &&
-			stump.Roots[len(stump.Roots)-(i+1)] == rootCandidates[len(rootIndexes)] {
 
-			rootIndexes = append(rootIndexes, len(stump.Roots)-(i+1))
+	// Each root candidate must be the root of the tree that its targets are in.
+	// Matching a candidate with just any root that has the same hash would
+	// accept a hash for a position in a different tree.
+	rootIndexes, err := targetRootIndexes(proof.Targets, stump.NumLeaves)
+	if err != nil {
+		return nil, err
+	}
+	if len(rootCandidates) != len(rootIndexes) {
+		err := fmt.Errorf("StumpVerify fail. Invalid proof. Calculated %d roots but "+
+			"the targets are in %d trees", len(rootCandidates), len(rootIndexes))
+		return nil, err
+	}
+	for i, index := range rootIndexes {
+		if index >= len(stump.Roots) || stump.Roots[index] != rootCandidates[i] {
+			// The proof is invalid because a root candidate doesn't match
+			// the root of its tree.
+			err := fmt.Errorf("StumpVerify fail. Invalid proof. Root candidate %d "+
+				"doesn't match the root at index %d", i, index)
+			return nil, err
 		}
 	}
 
-	if len(rootCandidates) != len(rootIndexes) {
-		// The proof is invalid because some root candidates were not
-		// included in `roots`.
-		err := fmt.Errorf("StumpVerify fail. Invalid proof. Have %d roots but only "+
-			"matched %d roots", len(rootCandidates), len(rootIndexes))
-		return nil, err
+	return rootIndexes, nil
+}
+
+// targetRootIndexes returns the indexes of the roots of the trees that the given
+// targets are in. The indexes are ordered from the lowest tree to the highest,
+// which is the order calculateHashes returns the roots in. An error is returned if
+// a target doesn't exist in a forest with the given numLeaves.
+func targetRootIndexes(targets []uint64, numLeaves uint64) ([]int, error) {
+	totalRows := TreeRows(numLeaves)
+
+	// Mark the rows of the trees that have targets in them.
+	var treeRows uint64
+	for _, target := range targets {
+		if !inForest(target, numLeaves, totalRows) {
+			return nil, fmt.Errorf("target %d doesn't exist in a forest with %d leaves",
+				target, numLeaves)
+		}
+
+		// The tree that the leftmost leaf under the target is in is at the row
+		// of the highest bit that's different from numLeaves.
+		leaf, err := ChildMany(target, DetectRow(target, totalRows), totalRows)
+		if err != nil {
+			return nil, err
+		}
+		treeRows |= 1 << (bits.Len64(leaf^numLeaves) - 1)
 	}
 
-	return rootIndexes, nil
+	// The roots are ordered from the highest tree to the lowest so the index
+	// of a root is the count of the roots that are higher than it.
+	indexes := make([]int, 0, bits.OnesCount64(treeRows))
+	for row := uint8(0); row <= totalRows; row++ {
+		if treeRows&(1<<row) != 0 {
+			indexes = append(indexes, bits.OnesCount64(numLeaves>>(row+1)))
+		}
+	}
+
+	return indexes, nil
 }
 
 // del verifies that the passed in proof is correct. Then it calculates the
